@@ -46,6 +46,18 @@ Definition spec_sht_names : list (Z * string) :=
   [ (SHT_STRTAB, "SHT_STRTAB"); (SHT_DYNAMIC, "SHT_DYNAMIC"); (SHT_NOBITS, "SHT_NOBITS");
     (SHT_DYNSYM, "SHT_DYNSYM") ]%string.
 
+(* processor-specific tags (DT_LOPROC..DT_HIPROC) belong to the machine, the OS-specific
+   range (DT_LOOS..DT_HIOS) to the OS ABI.  The library knows the MIPS, AArch64 and
+   Solaris sets; no platform combines two of them, a machine set takes precedence. *)
+Inductive dtab_kind := KCommon | KMips | KAarch64 | KSolaris.
+Definition spec_dtab_kind (machine osabi : Z) : dtab_kind :=
+  if (machine =? 8) || (machine =? 10) then KMips        (* EM_MIPS, EM_MIPS_RS3_LE *)
+  else if machine =? 183 then KAarch64                   (* EM_AARCH64 *)
+  else if osabi =? 6 then KSolaris                       (* ELFOSABI_SOLARIS *)
+  else KCommon.
+Definition spec_is_solaris (machine osabi : Z) : bool :=
+  match spec_dtab_kind machine osabi with KSolaris => true | _ => false end.
+
 (* the tags whose value is an index into the dynamic string table *)
 Definition string_tag (solaris : bool) (tag : Z) : bool :=
   (tag =? DT_NEEDED) || (tag =? DT_SONAME) || (tag =? DT_RPATH) || (tag =? DT_RUNPATH) ||
@@ -293,6 +305,9 @@ Definition describe (img : list Z) : option dyninfo :=
       else None
   end.
 
+Definition strtab_bytes (d : dyninfo) (img : list Z) : list Z :=
+  firstn (Z.to_nat (sh_size (di_str d))) (skipn (Z.to_nat (sh_offset (di_str d))) img).
+
 (* every dynamic pointer lies in a PT_LOAD whose file image contains the table, and the
    section headers describe the same bytes (tags, strings, relocation tables) *)
 Definition consistent_b (img : list Z) : bool :=
@@ -318,6 +333,9 @@ Definition consistent_b (img : list Z) : bool :=
                    end
       | None => false
       end &&
+      (* every string-valued entry indexes a terminated string inside the table *)
+      forallb (fun e => negb (string_tag (spec_is_solaris (e_machine (di_eh d)) (e_osabi (di_eh d))) (fst e)) ||
+                        match str_at (strtab_bytes d img) (snd e) with Some _ => true | None => false end) es &&
       reloc_ok is64 img ps es DT_REL DT_RELSZ && reloc_ok is64 img ps es DT_RELA DT_RELASZ &&
       reloc_ok is64 img ps es DT_RELR DT_RELRSZ && reloc_ok is64 img ps es DT_JMPREL DT_PLTRELSZ
   end.
@@ -366,6 +384,12 @@ Definition sym_consistent_b (img : list Z) : bool :=
                        | Some off => off =? sh_offset ds
                        | None => false
                        end
+          | None => false
+          end &&
+          (* every symbol name indexes a terminated string inside the table *)
+          match read_syms (di_le d) is64 img (sh_offset ds) (sym_size is64) N with
+          | Some rs => forallb (fun r => match str_at (strtab_bytes d img) (rec_z r "st_name") with
+                                         | Some _ => true | None => false end) rs
           | None => false
           end &&
           hash_ok d img N
